@@ -291,36 +291,6 @@ def cmp3(x, y):
     return "LT" if x < y else "GT" if x > y else "EQ"
 
 
-def count_tt(nodes):
-    """independent exact model count over a raw array (Python ints are unbounded): memoised recursion with
-    level-gap weights; cross-checked against the truth table when the variable count is small"""
-    if not is_wf(nodes):
-        return None
-    nv = nodes[0][0]
-    memo = {}
-
-    def cnt(p):      # number of assignments of variables var(p)..nv-1 satisfying the sub-diagram
-        if p == 0:
-            return 0
-        if p == 1:
-            return 1
-        if p in memo:
-            return memo[p]
-        v, l, h = nodes[p]
-        vl = nodes[l][0]
-        vh = nodes[h][0]
-        r = cnt(l) * (1 << (vl - v - 1)) + cnt(h) * (1 << (vh - v - 1))
-        memo[p] = r
-        return r
-    root = len(nodes) - 1
-    import sys as _s
-    _s.setrecursionlimit(max(10000, 4 * len(nodes)))
-    total = cnt(root) * (1 << nodes[root][0]) if root >= 2 else (cnt(root) << nv)
-    if nv <= 12:
-        assert total == sum(1 for t in raw_tt(nodes) if t)
-    return total
-
-
 def expected(call):
     """the value the property demands, computed on finite maps / raw arrays; None = no complete oracle (compare with the model only)"""
     op = call[0]
@@ -364,7 +334,7 @@ def expected(call):
         return "LT" if a < b else "GT" if a > b else "EQ"
     if op in ("cmp_cardinality", "cmp_cardinality_strict"):
         a, b = bdd_nodes(call[1]), bdd_nodes(call[2])
-        ca, cb = count_tt(a), count_tt(b)
+        ca, cb = raw_count(a), raw_count(b)
         if ca is None or cb is None:
             return None
         if op == "cmp_cardinality":
@@ -379,7 +349,7 @@ def expected(call):
         ge = all((not y) or x for x, y in zip(ta, tb))
         return ["S", "EQ"] if le and ge else ["S", "LT"] if le else ["S", "GT"] if ge else "N"
     if op == "exact_card":
-        c = count_tt(bdd_nodes(call[1]))
+        c = raw_count(bdd_nodes(call[1]))
         return None if c is None else str(c)
     return None
 
@@ -464,9 +434,7 @@ def judge(st, V):
             V.violations.append(violation(PID, st, "conversion is not an inverse / result is malformed", oracle=bad, confirmed=True,
                                           relation="round trip (independent oracle)"))
             return
-    if model == "TOOBIG":
-        V.count("model_withheld_oracle_only")
-    elif impl != model:
+    if impl != model:
         V.violations.append(violation(PID, st, "implementation and model disagree", oracle={"expected_by_oracle": sx_str(want)[:300] if want is not None else None},
                                       confirmed=False, relation="exact"))
         return
